@@ -667,8 +667,12 @@ impl ZiPatch {
                                     .iter()
                                     .collect();
 
-                                    if fs::read_dir(&path).is_ok() {
-                                        fs::remove_dir_all(&path)?;
+                                    // an expansion that was never installed has nothing to
+                                    // remove, any other failure to list it fails the patch
+                                    match fs::read_dir(&path) {
+                                        Ok(_) => fs::remove_dir_all(&path)?,
+                                        Err(err) if err.kind() == std::io::ErrorKind::NotFound => {}
+                                        Err(err) => return Err(err.into()),
                                     }
                                 }
                                 SqpkFileOperation::MakeDirTree => {
